@@ -117,6 +117,8 @@ class StoreLib(LibBase):
             props |= {"C01", "C02", "C04", "C05", "C06", "C07", "C18"}
             if cls in ("B", "L"):
                 props |= {"C11"}
+        if PROFILES[cls]["belt"]:
+            props |= {"C12"}
         return props
 
     # ------------------------------------------------------------------ state
@@ -207,7 +209,7 @@ class StoreLib(LibBase):
         Qp, Rp, Qg, Rg, Re, It = f[QP], f[RP], f[QG], f[RG], f[RE], f[ITEMS]
         cap = f["capacity"]
         # I-cap
-        out.append(("I-cap", cap_le(Rp.len + held(st, p), cap), ("C01",)))
+        out.append(("I-cap", cap_le(Rp.len + held(st, p), cap), ("C01", "C12") if p["belt"] else ("C01",)))
         # I-sync
         out.append(("I-sync.len", Re.len == Rg.len, ("C02",)))
         out.append(("I-sync", V.forall_idx(Re, lambda i, e: e.t == Rg.at(i).t, "I-sync"), ("C02",)))
@@ -245,7 +247,7 @@ class StoreLib(LibBase):
                                                           strict_lt=True), ("C02",)))
             fifo = self.is_fifo(cls, st)
             out.append(("I-bind.fifo", V.forall_idx(Ri, lambda i, x: z3.Implies(
-                fifo, z3.And(i < Rd.len, x.t == Rd.at(i).t)), "bind.fifo"), ("C06",)))
+                fifo, z3.And(i < Rd.len, x.t == Rd.at(i).t)), "bind.fifo"), ("C06", "C12") if p["belt"] else ("C06",)))
         # I-trig
         out.append(("I-trig.Qp", V.forall_idx(Qp, lambda i, e: z3.Not(trig(st, e.t)), "I-trig.Qp"), ("C04", "C07")))
         out.append(("I-trig.Rp", V.forall_idx(Rp, lambda i, e: trig(st, e.t), "I-trig.Rp"), ("C04", "C07")))
@@ -465,10 +467,10 @@ class StoreLib(LibBase):
             o = c.old
             e = c.args["event"]
             g = lib.grantable_put(cls, o)
+            pr = ("C01", "C04", "C12") if p["belt"] else ("C01", "C04")
             items = [
-                Def(RP, V.ite(g, V.list_append(o.f[RP], e), o.f[RP]), ("C01", "C04")),
-                DefHeap("triggered", z3.If(g, z3.Store(o.heap_arr("triggered"), e.t, True), o.heap_arr("triggered")),
-                        ("C01", "C04")),
+                Def(RP, V.ite(g, V.list_append(o.f[RP], e), o.f[RP]), pr),
+                DefHeap("triggered", z3.If(g, z3.Store(o.heap_arr("triggered"), e.t, True), o.heap_arr("triggered")), pr),
             ]
             if p["belt"]:
                 # statement C12: successive items enter at least one item length (one slot delay) apart.  The admission
